@@ -10,7 +10,7 @@ use txtpp::Mode;
 
 const C02_CLASSES: &[&str] = &["deadlock", "panic-main", "panic-worker", "false-failure", "wrong-bytes", "missing-output", "double-complete", "obs-stale", "marker-count"];
 const C03_CLASSES: &[&str] = &["deadlock", "panic-main", "panic-worker", "false-success-cycle", "wrong-bytes", "missing-output", "double-complete", "marker-count", "unrequired-processed"];
-const C05_CLASSES: &[&str] = &["deadlock", "false-success-cycle", "false-failure", "bystander-wrong", "missing-output", "wrong-bytes"];
+const C05_CLASSES: &[&str] = &["deadlock", "false-success-cycle", "false-failure", "false-circular", "bystander-wrong", "missing-output", "wrong-bytes"];
 
 pub fn info_c02() -> PropInfo {
     PropInfo {
@@ -219,10 +219,10 @@ fn free_stress(ctx: &mut Ctx, prop: &'static str, classes: &'static [&'static st
         if r.gen_bool(0.2) {
             case.prior = Some((mask, r.gen_range(1..(1u64 << n))));
         }
-        if matches!(case.mode, Mode::InMemoryBuild) && r.gen_bool(0.3) {
+        if (matches!(case.mode, Mode::InMemoryBuild) && r.gen_bool(0.3)) || (matches!(case.mode, Mode::Build) && r.gen_bool(0.15)) {
             case.empty_leaves = true;
             case.markers = false;
-            case.stale = r.gen_bool(0.5);
+            case.stale = r.gen_bool(0.5) || matches!(case.mode, Mode::Build);
         }
         if !acyclic_only && r.gen_bool(0.15) {
             // an error result arrives while many other tasks are still queued or running: the run
@@ -453,6 +453,12 @@ fn run_c02(ctx: &mut Ctx) {
                             case.empty_leaves = true;
                             case.stale = k % 30 == 5;
                         }
+                        // plain build: an old non-empty file at the output path of a source whose
+                        // fresh output is empty has to be emptied
+                        if matches!(case.mode, Mode::Build) && k % 9 == 4 && !case.markers && !case.stale_link {
+                            case.empty_leaves = true;
+                            case.stale = true;
+                        }
                         if !dfs_case(ctx, "C02", C02_CLASSES, &case, cap, true, edge_count(mask) > 0) {
                             break 'all;
                         }
@@ -468,6 +474,10 @@ fn run_c02(ctx: &mut Ctx) {
 }
 
 fn replay_graph(ctx: &mut Ctx, prop: &'static str, classes: &'static [&'static str], v: &Value) {
+    if v["kind"].as_str() == Some("cli-logging") {
+        cli_with_logging(ctx, prop);
+        return;
+    }
     let (case, spec) = GraphCase::from_json(v);
     let reps = if matches!(spec, Spec::Controlled { .. }) { 1 } else { 50 };
     for _ in 0..reps {
@@ -597,6 +607,13 @@ fn digraph_enumeration(ctx: &mut Ctx, prop: &'static str, classes: &'static [&'s
                         case.empty_leaves = true;
                         case.stale = k % 16 == 6;
                     }
+                    if cyclic_only_nontrivial && !cyclic && n >= 2 && style == 0 && k % 3 == 2 && case.prior.is_none() && !case.empty_leaves {
+                        // an acyclic project with a failing file that others depend on: the run must
+                        // fail with that file's error, never with a circular-dependency report
+                        case.fail_at = Some((k / 3) as usize % n);
+                        case.fail_kind = [0u8, 1, 2][(k / 9) as usize % 3];
+                        case.markers = false;
+                    }
                     let nontrivial = if cyclic_only_nontrivial { cyclic } else { n >= 2 || style >= 3 };
                     if !dfs_case(ctx, prop, classes, &case, cap, true, nontrivial) {
                         break 'all;
@@ -641,7 +658,42 @@ fn empty_selection(ctx: &mut Ctx, prop: &'static str, classes: &'static [&'stati
     }
 }
 
+/// Termination through the binary with logging switched on by the environment (`RUST_LOG`): the
+/// logger writes to stderr from every thread; a run must still end, with exit status 0 or 1.
+fn cli_with_logging(ctx: &mut Ctx, prop: &'static str) {
+    let mut k = 0u64;
+    for (n, mask, expect_ok) in [(3usize, 0b100_010u64, true), (3, 0b000_000_110, true), (2, 0b0110, false), (1, 0b1, false)] {
+        for level in ["debug", "trace", "txtpp=debug"] {
+            for threads in [1usize, 4] {
+                k += 1;
+                if !ctx.claim(8_000_000 + k) {
+                    continue;
+                }
+                let root = ctx.scratch.fresh();
+                let g = crate::gen::Graph::from_mask(n, mask, 0);
+                let files = crate::gen::graph_files(&g, 1, 0xc11, None, None, false);
+                crate::util::materialize(&root, &files, &[]);
+                let args: Vec<String> = vec!["-q".into(), "-j".into(), threads.to_string(), ".".into()];
+                let o = crate::run::run_cli(&root, &args, &crate::run::CliOpts { env: vec![("RUST_LOG".into(), level.into())], timeout: Some(std::time::Duration::from_secs(30)), ..Default::default() });
+                ctx.evals += 1;
+                ctx.count("cli_runs_with_RUST_LOG", 1);
+                ctx.distinct.insert(crate::util::hash_str(&format!("clilog{n}{mask}{level}{threads}")));
+                let cj = json!({"kind": "cli-logging", "n": n, "mask": mask, "rust_log": level, "threads": threads});
+                if o.timed_out {
+                    ctx.violation(format!("{prop}:deadlock"), format!("`RUST_LOG={level} txtpp -q -j {threads} .` on a {n}-file project did not end within 30 s (without RUST_LOG it takes ~0.1 s)"), cj);
+                } else if !matches!(o.code, Some(0) | Some(1)) {
+                    ctx.violation(format!("{prop}:panic-main"), format!("`RUST_LOG={level} txtpp -q -j {threads} .` ended abnormally: {}", o.short()), cj);
+                } else if (o.code == Some(0)) != expect_ok {
+                    ctx.violation(format!("{prop}:{}", if expect_ok { "false-failure" } else { "false-success-cycle" }), format!("`RUST_LOG={level} txtpp -q -j {threads} .`: exit {:?}, expected {}", o.code, if expect_ok { 0 } else { 1 }), cj);
+                }
+                ctx.scratch.discard(&root);
+            }
+        }
+    }
+}
+
 fn run_c03(ctx: &mut Ctx) {
+    cli_with_logging(ctx, "C03");
     digraph_enumeration(ctx, "C03", C03_CLASSES, false);
 }
 
